@@ -79,8 +79,10 @@ func (g *wgen) run(seed uint64, proc, idx int) proto.RunRec {
 		nt = 4
 	case x < 97:
 		nt = 5 + r.n(4)
-	default:
+	case x < 99:
 		nt = 9 + r.n(8) // "any number of goroutines": occasionally many callers, one call each
+	default:
+		nt = 17 + r.n(48) // rarely a crowd (limits such as "at most 32 at once")
 	}
 	// pool of call signatures: few keys, neighbouring
 	var pool []int
@@ -115,6 +117,16 @@ func (g *wgen) run(seed uint64, proc, idx int) proto.RunRec {
 		}
 		if nt > 8 {
 			no = 1
+		}
+		if nt > 16 && g.e != nil {
+			// a crowd makes cheap calls only
+			for tries := 0; tries < 8 && g.e.Steps[pool[0]] > 40000; tries++ {
+				pool[0], pool[len(pool)-1] = pool[len(pool)-1], pool[0]
+				pool = pool[:len(pool)-1]
+				if len(pool) == 1 {
+					break
+				}
+			}
 		}
 		var tr proto.TaskRec
 		prev := -1
